@@ -762,6 +762,23 @@ def gen_c19(rng, tier):
         cases.append(dict(id=f'backlog-{i}', exporters=1 + (i % 2), compression=rng.choice(['', 'zstd']), factory=False, workers=1, batches=3 + rng.below(3),
                           points=[20 + rng.below(100)], sleep_us=[120000], seed=rng.below(1000), family='backlog',
                           consumer_delay_us=[350000 + rng.below(100000)] + [0] * 20))
+    # one long export call (the writer is busy across flusher ticks) while other callers trickle small
+    # batches in, then silence: an export that announced itself before it got the writer must still be flushed
+    for i in range(1 if tier == 'quick' else 4):
+        cases.append(dict(id=f'large-with-trickle-{i}', exporters=1, compression=rng.choice(['', 'zstd']), factory=False, workers=4, batches=1,
+                          points=[5], points_by_worker=[[150000 + rng.below(100000)], [5], [4], [3]], batches_by_worker=[1, 40, 40, 40],
+                          sleep_us=[5000, 7000, 3000], seed=rng.below(1000), family='large-with-trickle'))
+    # ... and the variant in which the other callers make their ONLY call while the long one holds the writer
+    # (they wait for the mutex behind the flusher), after which nobody exports any more
+    for i in range(1 if tier == 'quick' else 4):
+        cases.append(dict(id=f'large-with-late-callers-{i}', exporters=1, compression=rng.choice(['', 'zstd']), factory=False, workers=4, batches=1,
+                          points=[5], points_by_worker=[[250000 + rng.below(100000)], [5], [4], [3]], batches_by_worker=[1, 1, 1, 1],
+                          sleep_us=[0], late_callers=True, seed=rng.below(1000), family='large-with-late-callers'))
+    # two multi-megabyte batches in a row on one stream, then small ones (a chunk cut into several gRPC
+    # messages must not disturb the next chunk), data that compresses badly
+    for i in range(1 if tier == 'quick' else 3):
+        cases.append(dict(id=f'two-large-{i}', exporters=1, compression=rng.choice(['', '']), factory=False, workers=1 + i % 2, batches=4,
+                          points=[60000 + rng.below(20000), 60000 + rng.below(20000), 7, 3], sleep_us=[0], seed=rng.below(1000), family='two-large'))
     for i in range((40 if tier == 'quick' else 240)):
         fam = ['single', 'concurrent', 'multi', 'spread', 'factory'][i % 5]
         c = dict(id=f'{fam}-{i}', exporters=1, compression=rng.choice(['', 'zstd']), factory=False, workers=1, batches=1 + rng.below(5),
@@ -963,7 +980,9 @@ def run_c19(rng, tier, verdict, counters, samples, seed, info):
             verdict.violation(rep, f'{bad[0]}: {c["id"]}: {" ".join(map(str, bad[1:]))[:200]}')
             continue
         counters['clean_' + c['family']] += 1
-        if all(x['visible'] for x in r['exporters']):
+        # the replay in the model needs frames that end at batch ends (the schedule builder does not
+        # reconstruct the writer's own frame cuts inside a batch) and moderate sizes (nat numerals)
+        if all(x['visible'] for x in r['exporters']) and max([len(b['pts']) for b in r['accepted']] + [0]) < 5000:
             clean.append((c, r))
     # ---- replay of observed runs in the model (inside Coq): same batches, same frames => same terminal state
     pick = clean[:1] + [clean[(i * 7) % len(clean)] for i in range(1, 12 if tier == 'quick' else 60)] if clean else []
